@@ -261,6 +261,26 @@ def main(tier):
                         stats["samples"].append({"config": cfg, "parsed_settings": real})
                 finally:
                     sim.close()
+            # (c2) the built-in start position of the Benign role (three 'random' hosts): on every shipped scenario - also one with
+            # a single start host - a Benign agent joins and controls start hosts of the scenario
+            for sc in ("scenario1_small", "scenario1", "three_nets"):
+                bcfg, _ = gen_cfg(rng)
+                bcfg["env"].update({"scenario": sc, "required_players": 1, "use_dynamic_addresses": False})
+                sim = Sim(bcfg)
+                try:
+                    if sim.startup_error is not None or sim.server_cb is None:
+                        continue
+                    sim.connect(0)
+                    sim.send(0, CC.J(ActionType.JoinGame, agent_info=AgentInfo("b0", "Benign")))
+                    st = sim.coord._agent_states.get(("127.0.0.1", 40000))
+                    stats["joins"] += 1
+                    starts = {str(x) for x in sim.coord.hosts_to_start}
+                    if st is None or not st.controlled_hosts or not {str(x) for x in st.controlled_hosts} <= starts:
+                        V.fail("benign-join:" + sc, f"a Benign agent (built-in start position: three 'random' hosts) joining {sc} (start hosts {sorted(starts)}) "
+                               f"{'got no initial view' if st is None else 'controls ' + str(sorted(map(str, st.controlled_hosts)))}: {[repr(u.get('exception'))[:100] for u in sim.loop.unhandled][-1:]}",
+                               {"config": bcfg, "role": "Benign"})
+                finally:
+                    sim.close()
             # (d2) the documented 'all_attackers' keyword of the Defender goal
             CC.probe_all_attackers_goal(lambda tags, sig, desc, rep: V.fail(sig, desc, rep) if "C19" in tags else None, cstats)
             # (e) behaviour: sessions whose model settings come from the file through the model's reader
